@@ -64,6 +64,7 @@ type Event struct {
 	St     int      `json:"st,omitempty"`
 	New    bool     `json:"new,omitempty"`
 	D      int      `json:"d,omitempty"`
+	Calls  []Event   `json:"calls,omitempty"` // conc: responses of different sequences handled at the same time (flows mode)
 	N      int       `json:"n,omitempty"`     // burst: number of other sequences opened at once
 	Flows  []FlowCfg `json:"flows,omitempty"` // flows mode with several flows, each holding a Retry processor
 	U      string    `json:"u,omitempty"`     // ... path of the call ("orders", "other", ...): decides which flows are selected
@@ -275,6 +276,8 @@ type flowsRun struct {
 	mu   sync.Mutex
 	seen []string // outputs of RetryProc during the current transaction
 
+	conc map[int64][]string // concurrent calls: outputs of RetryProc per goroutine
+
 	multi bool        // several flows: every processor execution of the current transaction (flow, key, output)
 	flows []FlowCfg
 	execs [][3]string
@@ -319,7 +322,13 @@ func sink(point string, kv ...any) {
 			f.mu.Unlock()
 		} else if m["key"] == "RetryProc" {
 			f.mu.Lock()
-			f.seen = append(f.seen, fmt.Sprint(m["out"]))
+			if f.conc != nil {
+				// concurrent calls: the hook runs on the goroutine of the call it belongs to
+				g := goid()
+				f.conc[g] = append(f.conc[g], fmt.Sprint(m["out"]))
+			} else {
+				f.seen = append(f.seen, fmt.Sprint(m["out"]))
+			}
 			f.mu.Unlock()
 		}
 	}
@@ -569,6 +578,110 @@ func (f *flowsRun) burst(n, st int, u string) vh.Ev {
 	return vh.Ev{"ev": "burst", "n": n, "st": st, "retried": retried}
 }
 
+func goid() int64 {
+	var buf [64]byte
+	n := runtime.Stack(buf[:], false)
+	var id int64
+	fmt.Sscanf(string(buf[:n]), "goroutine %d ", &id)
+	return id
+}
+
+// concResp: the responses of several different sequences are handled at the same time: every call enters the flow on a
+// goroutine of its own and the next one enters only when the previous one is parked in the Retry processor's cool-down wait
+// (its timer is armed on the mock clock) or has returned; then the clock moves and the waits end in timer order.
+func (f *flowsRun) concResp(calls []Event) []vh.Ev {
+	type call struct {
+		e    Event
+		acts *streamconfig.StreamActions
+		done chan error
+		gid  int64
+		err  error
+	}
+	f.mu.Lock()
+	f.conc = map[int64][]string{}
+	f.mu.Unlock()
+	cs := make([]*call, len(calls))
+	for i, e := range calls {
+		f.txn++
+		seq := f.prefix + e.S
+		id := fmt.Sprintf("%s-t%d", seq, f.txn)
+		if e.New {
+			id = seq
+		}
+		c := &call{e: e, done: make(chan error, 1),
+			acts: &streamconfig.StreamActions{Request: &streamconfig.RequestStream{}, Response: &streamconfig.ResponseStream{}}}
+		cs[i] = c
+		api := streamtypes.NewResponseAPIStream(lunarMessages.OnResponse{
+			ID: id, SequenceID: seq, Method: "GET", URL: "api.test/x", Status: e.St, Headers: map[string]string{},
+		}, lunarcontext.NewMemoryState[[]byte]())
+		armed := len(f.clock.PendingTimers())
+		gidCh := make(chan int64, 1)
+		go func() { gidCh <- goid(); c.done <- f.eng.ExecuteFlow(api, c.acts) }()
+		c.gid = <-gidCh
+		deadline := time.Now().Add(10 * time.Second)
+	entered:
+		for {
+			select {
+			case c.err = <-c.done:
+				c.done = nil // returned without waiting (failed / filter miss)
+				break entered
+			default:
+			}
+			if len(f.clock.PendingTimers()) > armed {
+				break entered
+			}
+			if time.Now().After(deadline) {
+				vh.Die("flows: concurrent call neither waits nor returns")
+			}
+			runtime.Gosched()
+		}
+	}
+	// all entered: let the cool-downs end
+	deadline := time.Now().Add(10 * time.Second)
+	for _, c := range cs {
+		for c.done != nil {
+			select {
+			case c.err = <-c.done:
+				c.done = nil
+			case <-time.After(50 * time.Microsecond):
+				f.clock.WaitForAllTimers()
+				if time.Now().After(deadline) {
+					vh.Die("flows: concurrent call did not return")
+				}
+			}
+		}
+	}
+	f.mu.Lock()
+	obs := f.conc
+	f.conc = nil
+	f.mu.Unlock()
+	var evs []vh.Ev
+	for _, c := range cs {
+		out := vh.Ev{"ev": "resp", "s": c.e.S, "st": c.e.St, "new": c.e.New, "conc": len(cs)}
+		seen := obs[c.gid]
+		nRetryAct := 0
+		for _, a := range c.acts.Response.Actions {
+			if _, ok := a.(*actions.RetryRequestAction); ok {
+				nRetryAct++
+			}
+		}
+		switch {
+		case c.err != nil:
+			out["out"] = "error:" + c.err.Error()
+		case nRetryAct == 1 && len(seen) == 1 && seen[0] == "retry":
+			out["out"] = "retry"
+		case nRetryAct == 0 && len(seen) == 1 && seen[0] == "failed":
+			out["out"] = "failed"
+		case nRetryAct == 0 && len(seen) == 0:
+			out["out"] = "none"
+		default:
+			out["out"] = fmt.Sprintf("other:actions=%d,proc=%s", nRetryAct, strings.Join(seen, "+"))
+		}
+		evs = append(evs, out)
+	}
+	return evs
+}
+
 func (f *flowsRun) adv(d int) {
 	f.clock.AdvanceTime(time.Duration(d) * time.Second)
 }
@@ -644,6 +757,14 @@ func main() {
 						}
 					} else if fl != nil {
 						tr.Add(fl.resp(e))
+					}
+				case "conc":
+					if fl != nil && !fl.multi {
+						for _, ev := range fl.concResp(e.Calls) {
+							tr.Add(ev)
+						}
+					} else if fl != nil || pol != nil {
+						vh.Die("conc: single-flow flows mode only")
 					}
 				case "burst":
 					if pol != nil {
